@@ -1,5 +1,5 @@
 ---- MODULE Itp_Dev ----
 (* instance wrapper for C11 (TLC evaluates zero-arity definitions eagerly: one module per instance) *)
 EXTENDS ItpRoundTripExport
-MCMols == MolsDev(0)
+MCMols == TLCEval(MolsDev(0))
 ====
